@@ -157,7 +157,8 @@ Section Oracles.
     end.
 
   (* the method APK.expandPackage: with a cache configured the result is memoised per
-     process (globalApkCache), errors included. The key is the pair (URL,
+     process (globalApkCache); since fix 6e5c862 a FAILED expansion is forgotten (its
+     sync.Once is deleted), so only successes stay. The key is the pair (URL,
      checksum string) since fixes 9459281 / C05-c; originally it was the URL alone
      (C05-F1: a request recording another checksum got the first expansion back),
      then URL + "@" + checksum joined into one string (C05-F2: ambiguous when
@@ -175,7 +176,8 @@ Section Oracles.
     | Some _ =>
         match assoc_k (memo_key h) m with
         | Some r => (r, k, m)
-        | None => let (r, k') := expand_uncached k h served in (r, k', (memo_key h, r) :: m)
+        | None => let (r, k') := expand_uncached k h served in
+                  (r, k', match r with XOk _ => (memo_key h, r) :: m | XErr _ => m end)
         end
     end.
 End Oracles.
